@@ -236,11 +236,13 @@ def main():
             # time budget is used up; what was not reached is reported in the evidence (coverage.budget), the exit status
             # speaks for everything explored
             qs = h.shapes('quick')
-            shapes = qs + [s_ for s_ in shapes if s_ not in qs]
+            deep = [s_ for s_ in shapes if s_ not in qs]
+            # VERIF_DEEP_FIRST=1 (maintenance): the deeper shapes first, to smoke-test them under a short budget
+            shapes = (deep + qs) if os.environ.get('VERIF_DEEP_FIRST') else (qs + deep)
         opts = {'mir': mir, 'repo': build.REPO, 'tier': tier, 'known_active': active, 'seed': seed,
                 'stop_on_violation': True, 'first_only': True}
         opts.update(getattr(h, 'OPTS', {}).get(tier, {}))
-        budget = h.TIME_BUDGET[tier]
+        budget = int(os.environ.get('VERIF_BUDGET_S') or h.TIME_BUDGET[tier])
         opts['deadline'] = time.time() + budget
         # ---- vacuity twins: on a sample of shapes the harness followed by assert(false) must be violated, i.e. some
         # path satisfies every assumption and reaches the end of the harness
